@@ -227,6 +227,37 @@ impl<MutexType: RawMutex, T> ChannelReceiveAccess<T>
     }
 }
 
+#[cfg(all(futures_intrusive_verif, feature = "alloc"))]
+impl<MutexType: RawMutex, T> GenericOneshotChannel<MutexType, T>
+where
+    T: Sized,
+{
+    /// Read-only snapshot of the internal state for the verification harness
+    pub fn verif_snapshot(
+        &self,
+        is_live: crate::verif::IsLive<'_>,
+    ) -> crate::verif::Snapshot {
+        let state = self.inner.lock();
+        let mut snap = crate::verif::Snapshot::default();
+        snap.scalars.push(("is_fulfilled", state.is_fulfilled as u64));
+        snap.scalars.push(("has_value", state.value.is_some() as u64));
+        snap.queues.push(crate::verif::snap_list(
+            "waiters",
+            &state.waiters,
+            is_live,
+            &|e: &RecvWaitQueueEntry| {
+                let code = match e.state {
+                    RecvPollState::Unregistered => 0,
+                    RecvPollState::Registered => 1,
+                    RecvPollState::Notified => 2,
+                };
+                (code, e.task.is_some(), 0)
+            },
+        ));
+        snap
+    }
+}
+
 // Export a non thread-safe version using NoopLock
 
 /// A [`GenericOneshotChannel`] which is not thread-safe.
@@ -407,6 +438,59 @@ mod if_alloc {
                     channel: Some(self.inner.clone()),
                     wait_node: ListNode::new(RecvWaitQueueEntry::new()),
                     _phantom: PhantomData,
+                }
+            }
+        }
+
+        /// A handle for the verification harness which can take snapshots of
+        /// the shared state without acting as a sender or receiver.
+        #[cfg(futures_intrusive_verif)]
+        pub struct VerifOneshotObserver<MutexType, T>
+        where
+            MutexType: RawMutex,
+            T: 'static,
+        {
+            inner: alloc::sync::Arc<
+                GenericOneshotChannelSharedState<MutexType, T>,
+            >,
+        }
+
+        #[cfg(futures_intrusive_verif)]
+        impl<MutexType, T> core::fmt::Debug for VerifOneshotObserver<MutexType, T>
+        where
+            MutexType: RawMutex,
+            T: 'static,
+        {
+            fn fmt(&self, f: &mut core::fmt::Formatter) -> core::fmt::Result {
+                f.debug_struct("VerifOneshotObserver").finish()
+            }
+        }
+
+        #[cfg(futures_intrusive_verif)]
+        impl<MutexType, T> VerifOneshotObserver<MutexType, T>
+        where
+            MutexType: RawMutex,
+            T: 'static,
+        {
+            /// Read-only snapshot of the internal state
+            pub fn verif_snapshot(
+                &self,
+                is_live: crate::verif::IsLive<'_>,
+            ) -> crate::verif::Snapshot {
+                self.inner.channel.verif_snapshot(is_live)
+            }
+        }
+
+        #[cfg(futures_intrusive_verif)]
+        impl<MutexType, T> GenericOneshotSender<MutexType, T>
+        where
+            MutexType: RawMutex,
+            T: 'static,
+        {
+            /// Returns an observer for the verification harness
+            pub fn verif_observer(&self) -> VerifOneshotObserver<MutexType, T> {
+                VerifOneshotObserver {
+                    inner: self.inner.clone(),
                 }
             }
         }
